@@ -26,11 +26,15 @@ pub enum Ev {
     /// reset_eta / a backwards seek only 1 ms after the previous event (and after the read that precedes every event)
     ResetEtaSoon,
     RewindSoon,
+    /// set_position(current position), no time passes: not a seek at all
+    SetSame,
     Finish,
     Abandon,
 }
 
 pub struct C09 {
+    /// the bar is built with with_position(this) (a resumed transfer; positions beyond 2^53)
+    pub base_pos: Option<u64>,
     /// the bar is built with with_elapsed(this many seconds)
     pub with_elapsed: Option<u64>,
     pub steady: Option<u64>,
@@ -60,6 +64,7 @@ fn apply(pb: &ProgressBar, ev: &Ev, pos: &mut u64) {
     // reading the estimate is free of side effects: it happens before every event
     let _ = (pb.per_sec(), pb.eta(), pb.duration());
     match ev {
+        Ev::SetSame => pb.set_position(*pos),
         Ev::ResetEtaSoon => {
             clock::advance_ns(MS);
             pb.reset_eta();
@@ -123,8 +128,12 @@ impl C09 {
             None => if self.no_len { "transient, unknown length".to_string() } else { "transient".to_string() },
             Some(r) => format!("steady {r}/s"),
         };
-        match self.with_elapsed {
+        let base = match self.with_elapsed {
             Some(s) => format!("{base}, built with_elapsed({s} s)"),
+            None => base,
+        };
+        match self.base_pos {
+            Some(b) => format!("{base}, built with_position({b})"),
             None => base,
         }
     }
@@ -163,6 +172,9 @@ impl Hist for C09 {
                     }
                 }
                 v.push(Ev::ResetEtaSoon);
+                if !matches!(prefix.last(), Some(Ev::SetSame)) {
+                    v.push(Ev::SetSame);
+                }
                 if pos >= 2 {
                     v.push(Ev::Rewind);
                     v.push(Ev::RewindDec);
@@ -177,6 +189,7 @@ impl Hist for C09 {
         match op {
             Ev::Inc(g, d) => format!("+{}ns inc({})", g, d),
             o @ (Ev::ResetEtaSoon | Ev::RewindSoon) => format!("+1ms {:?}", o),
+            Ev::SetSame => "+0ns SetSame".to_string(),
             o => format!("+1s {:?}", o),
         }
     }
@@ -191,17 +204,32 @@ impl Hist for C09 {
             if let Some(secs) = self.with_elapsed {
                 pb = pb.with_elapsed(Duration::from_secs(secs));
             }
+            if let Some(b) = self.base_pos {
+                pb = pb.with_position(b);
+                pos = b;
+            }
+            let mut moved: Option<String> = None;
             for ev in hist {
+                let before = if *ev == Ev::SetSame { Some((pb.per_sec().to_bits(), pb.eta())) } else { None };
                 apply(&pb, ev, &mut pos);
+                if let Some(b) = before {
+                    let a = (pb.per_sec().to_bits(), pb.eta());
+                    if a != b && moved.is_none() {
+                        moved = Some(format!("per_sec/eta ({}, {:?}) before, ({}, {:?}) after set_position({pos}) at the same instant", f64::from_bits(b.0), b.1, f64::from_bits(a.0), a.1));
+                    }
+                }
             }
             let base = clock::now_ns();
             let q = query(&pb, base);
-            (q, base, pb.position())
+            (q, base, pb.position(), moved)
         });
-        let (q, base, real_pos) = match r {
+        let (q, base, real_pos, moved) = match r {
             Err(p) => return bad(&format!("panic: {}", panic_class(&p)), p),
             Ok(x) => x,
         };
+        if let Some(d) = moved {
+            return bad("L5x: set_position to the current position changes the estimate (taken for a seek)", d);
+        }
         let finished = matches!(hist.last(), Some(Ev::Finish | Ev::Abandon));
         // segments since the last reset-like event
         let k = hist.iter().rposition(|e| matches!(e, Ev::ResetEta | Ev::Reset | Ev::ResetElapsed | Ev::Rewind | Ev::RewindDec | Ev::ResetEtaSoon | Ev::RewindSoon));
@@ -282,6 +310,7 @@ impl Hist for C09 {
                 let mut pending = 0.0f64;
                 for e in hist {
                     match e {
+                        Ev::SetSame => {}
                         Ev::Inc(0, d) => pending += *d as f64,
                         Ev::Inc(g, d) => {
                             t += *g as f64 / 1e9;
@@ -365,13 +394,16 @@ impl Hist for C09 {
 
 fn configs(tier: Tier) -> Vec<(C09, usize)> {
     let (d, ds) = if tier == Tier::Quick { (4, 5) } else { (6, 8) };
-    let mut v = vec![(C09 { with_elapsed: None, steady: None, no_len: false }, d), (C09 { with_elapsed: None, steady: None, no_len: true }, d - 1)];
+    let mut v = vec![(C09 { base_pos: None, with_elapsed: None, steady: None, no_len: false }, d), (C09 { base_pos: None, with_elapsed: None, steady: None, no_len: true }, d - 1)];
     for r in [1u64, 1_000, 1_000_000, 1_000_000_000_000] {
-        v.push((C09 { with_elapsed: None, steady: Some(r), no_len: false }, ds));
+        v.push((C09 { base_pos: None, with_elapsed: None, steady: Some(r), no_len: false }, ds));
     }
     // bars built with an elapsed time restored from an earlier run
-    v.push((C09 { with_elapsed: Some(120), steady: Some(1_000), no_len: false }, ds));
-    v.push((C09 { with_elapsed: Some(5), steady: None, no_len: false }, d - 1));
+    v.push((C09 { base_pos: None, with_elapsed: Some(120), steady: Some(1_000), no_len: false }, ds));
+    v.push((C09 { base_pos: None, with_elapsed: Some(5), steady: None, no_len: false }, d - 1));
+    // a resumed transfer: the bar starts at a position beyond 2^53 (u64 -> f64 conversions are no longer exact)
+    v.push((C09 { base_pos: Some(1 << 59), with_elapsed: None, steady: Some(1_000), no_len: false }, ds));
+    v.push((C09 { base_pos: Some((1 << 59) + 1), with_elapsed: None, steady: Some(1), no_len: false }, ds - 1));
     v
 }
 
